@@ -352,7 +352,14 @@ func c01Run(r *runCtx, id string, f []string) {
 }
 
 // programs that exercise block structure: else, otherwise, nesting, decorators, stop, del
+// lines for the block-structure programs in addition to the standard ones: floats whose %g form
+// has an exponent, used as label values and deleted again
+var c01ExtraLines = []string{"2500000.5 add", "2500000.5 del", "0.00005 add", "0.00005 del", "1234567.0 1234567.0", "1e6 x", "12.5 add", "12.5 del"}
+
 var c01Programs = []string{
+	"counter seen by v\n/^(\\d+\\.\\d+) (\\w+)/ {\n  seen[$1]++\n  $2 == \"del\" {\n    del seen[$1]\n  }\n}\n",
+	"counter seen by v\ngauge last by v\n/^(\\d+\\.\\d+) (\\w+)/ {\n  seen[$1]++\n  last[$1] = $1\n  $2 == \"del\" {\n    del seen[$1] after 1h\n    del last[$1]\n  }\n}\n",
+	"counter n by k\n/^(\\d+) (\\w+)/ {\n  n[$1]++\n  $2 == \"del\" {\n    del n[$1]\n  }\n}\n",
 	"counter hits by who\ndef both {\n  /^(\\w+) / {\n    /(\\d+)$/ {\n      next\n    }\n  }\n}\n@both {\n  hits[$1]++\n}\n",
 	"gauge last by k\ndef d {\n  /^(?P<v>\\w+) / {\n    /(?P<v>\\d+)$/ {\n      next\n    }\n  }\n}\n@d {\n  last[\"x\"] = $v\n}\n",
 	"counter user by user\ndef d {\n  /^(?P<user>\\w+) / {\n    next\n  }\n}\n@d {\n  user[$user]++\n}\n",
@@ -396,7 +403,7 @@ func init() {
 				n, ex = 4000, 200
 			}
 			for _, p := range c01Programs {
-				g.emit("prog", "-", hx(p), hxs(vmStdLines))
+				g.emit("prog", "-", hx(p), hxs(append(append([]string{}, vmStdLines...), c01ExtraLines...)))
 			}
 			for _, c := range vmGenCases(g, n, ex) {
 				f := c.fields()
